@@ -25,7 +25,10 @@ type PageFP struct {
 	// Uses are the resource names used by operators of the page content; Res maps each of them to
 	// the value it resolves to in the effective resources (scalar "!missing" if it does not).
 	// Names used by the content of a form XObject WITHOUT its own /Resources are resolved against
-	// the page's resources as well (ISO 32000-1 7.8.3) and appear with Cat "<cat>@form".
+	// the page's resources as well (ISO 32000-1 7.8.3) and appear with Cat "<cat>@form"; so are the
+	// names used by resource-less forms such a form paints, to any depth (every form once per page:
+	// a form that paints itself, directly or not, is not followed again). A form WITH its own
+	// /Resources ends the descent: what it and the forms below it use is part of its own node.
 	Uses []Use
 	Res  map[Use]Val
 }
@@ -52,6 +55,10 @@ func rectText(d *pdfstrict.Doc, o pdfstrict.Object) (string, bool) {
 func boxText(b [4]float64) string {
 	return fmt.Sprintf("[%s %s %s %s]", FormatReal(b[0]), FormatReal(b[1]), FormatReal(b[2]), FormatReal(b[3]))
 }
+
+// maxFormDepth bounds the descent through nested resource-less forms (a safety net next to the
+// once-per-page guard).
+const maxFormDepth = 256
 
 var dropPieceInfo = map[string]bool{"PieceInfo": true}
 
@@ -112,7 +119,7 @@ func (g *Graph) Pages(formDrop map[string]bool) ([]PageFP, error) {
 					if sub, _ := g.Doc.Resolve(st.Dict["Subtype"]).(pdfstrict.Name); sub == "Form" {
 						fp.Res[key] = g.AddWithout(obj, formDrop)
 						fp.Uses = append(fp.Uses, key)
-						if _, own := g.Doc.ResolveDict(st.Dict["Resources"]); !own && depth < 4 && !seenForm[st.ObjNr] {
+						if _, own := g.Doc.ResolveDict(st.Dict["Resources"]); !own && depth < maxFormDepth && !seenForm[st.ObjNr] {
 							seenForm[st.ObjNr] = true
 							if data, derr := g.Doc.DecodeStream(st); derr == nil {
 								useAll(data, "@form", depth+1)
